@@ -47,6 +47,9 @@ type WriteFact struct {
 	// ConstRHS: an element store whose right-hand side is a constant / empty
 	// literal (set insert, flag).
 	ConstRHS bool
+	// Origin: position of the store statement itself (Pos is rewritten to the
+	// call site when a fact is translated into a caller).
+	Origin token.Pos
 }
 
 func (w WriteFact) PathString() string {
@@ -392,7 +395,7 @@ func (env *funcEnv) addStore(target ast.Expr, kind string, pos token.Pos) {
 	if !shared && !(env.region && root != rootLocal) {
 		return
 	}
-	f := WriteFact{Root: root, Global: global, Kind: kind, Pos: pos, Direct: true, Node: env.curNode}
+	f := WriteFact{Root: root, Global: global, Kind: kind, Pos: pos, Direct: true, Node: env.curNode, Origin: pos}
 	for _, s := range steps {
 		if s.field != nil {
 			f.Path = append(f.Path, s.field)
@@ -674,7 +677,7 @@ func (env *funcEnv) translate(call *ast.CallExpr, fn *types.Func, facts []WriteF
 			if root == rootLocal {
 				continue
 			}
-			nf := WriteFact{Root: root, Global: global, Kind: f.Kind, Pos: call.Pos(), Via: via, Elem: f.Elem, Node: call, ConstRHS: f.ConstRHS, ArgRooted: f.ArgRooted}
+			nf := WriteFact{Root: root, Global: global, Kind: f.Kind, Pos: call.Pos(), Via: via, Elem: f.Elem, Node: call, ConstRHS: f.ConstRHS, ArgRooted: f.ArgRooted, Origin: f.Origin}
 			for _, s := range steps {
 				if s.field != nil {
 					nf.Path = append(nf.Path, s.field)
